@@ -149,6 +149,8 @@ pub struct Exec<'p> {
     writers: Vec<Option<(Metric, std::rc::Rc<dyn std::any::Any>)>>,
     /// cfg.reuse_builder: one long-lived ArroyBuilder per index slot
     long_builders: std::collections::HashMap<usize, LongBuilder>,
+    /// a property to name besides the home property of an oracle, for the duration of one evaluation
+    also_for: Option<&'static str>,
     /// C07: budget-limited answers of each index, remembered with the hash of the index's own bytes
     answers_of: std::collections::HashMap<usize, (u64, Vec<Vec<(u32, u32)>>)>,
     /// cfg.default_tmp_unusable (changed only here, before the run's first step, and restored on drop)
@@ -243,6 +245,7 @@ impl<'p> Exec<'p> {
             last_mem_hint: None,
             writers: (0..n).map(|_| None).collect(),
             long_builders: Default::default(),
+            also_for: None,
             answers_of: Default::default(),
             _tmp_guard: if plan.cfg.default_tmp_unusable && plan.cfg.private_tmpdir { Some(TmpdirGuard::new(&workdir.join("no-such-tmp"))) } else { None },
             use_long_builder: false,
@@ -298,6 +301,7 @@ impl<'p> Exec<'p> {
             last_mem_hint: None,
             writers: (0..n).map(|_| None).collect(),
             long_builders: Default::default(),
+            also_for: None,
             answers_of: Default::default(),
             _tmp_guard: None,
             use_long_builder: false,
@@ -373,13 +377,14 @@ impl<'p> Exec<'p> {
 
     /// Record a finding. Returns Err(Stop) if it concerns the focus property.
     pub fn report(&mut self, props: &[&str], kind: &str, detail: String) -> R<()> {
-        let v = Violation {
-            properties: props.iter().map(|s| s.to_string()).collect(),
-            kind: kind.to_string(),
-            step: self.step_no,
-            detail,
-        };
-        if self.focus_any || props.contains(&self.focus.as_str()) {
+        let mut properties: Vec<String> = props.iter().map(|s| s.to_string()).collect();
+        if let Some(extra) = self.also_for {
+            if !properties.iter().any(|p| p == extra) {
+                properties.push(extra.to_string());
+            }
+        }
+        let v = Violation { properties, kind: kind.to_string(), step: self.step_no, detail };
+        if self.focus_any || v.properties.iter().any(|p| *p == self.focus) {
             if self.out.violation.is_none() {
                 self.out.violation = Some(v);
             }
@@ -572,6 +577,17 @@ impl<'p> Exec<'p> {
                 for o in 0..self.world.indexes.len() {
                     if o != ix {
                         self.check_staleness_pub(o, &["C07"])?;
+                    }
+                }
+            }
+            // ... what they say about their items too (emptiness, iteration, membership, vectors)
+            if self.world.indexes.len() > 1 && (self.focus == "C07" || self.step_no % 8 == 0) {
+                for o in 0..self.world.indexes.len() {
+                    if o != ix {
+                        self.also_for = Some("C07");
+                        let r = self.check_store_full_writer_only(o);
+                        self.also_for = None;
+                        r?;
                     }
                 }
             }
@@ -1185,6 +1201,10 @@ impl<'p> Exec<'p> {
             if self.metric_changed[ix] && !props.contains(&"C18") {
                 props.push("C18");
             }
+            // "a database written by the reference version ... opens with the current code ... and can be updated"
+            if self.from_fixture && !props.contains(&"C16") {
+                props.push("C16");
+            }
             self.report(&props, "staleness", format!("index {}: {f}", im.index))?;
         }
         Ok(())
@@ -1249,7 +1269,17 @@ impl<'p> Exec<'p> {
             let w: &Writer<D> = match &wrc {
                 Some(rc) => rc.downcast_ref::<Writer<D>>().expect("writer type"),
                 None => {
-                    fresh = writer::<D>(db, im.index, im.dim, &tmp, !env_mode);
+                    // half of the time the writer that carries the unusable directory has gone through a
+                    // (no-op) same-metric prepare_changing_distance first: it must still carry it
+                    let w0 = writer::<D>(db, im.index, im.dim, &tmp, !env_mode);
+                    fresh = if seed & 1 == 1 {
+                        match catch_unwind(AssertUnwindSafe(|| w0.prepare_changing_distance::<D>(wtxn))) {
+                            Ok(Ok(w)) => w,
+                            _ => writer::<D>(db, im.index, im.dim, &tmp, !env_mode),
+                        }
+                    } else {
+                        w0
+                    };
                     &fresh
                 }
             };
@@ -1776,7 +1806,10 @@ impl<'p> Exec<'p> {
                             match reader.nns(1).by_vector(txn, &queries[0]) {
                                 Ok(r) if !r.is_empty() => {}
                                 Ok(_) => f.push(("C15", "default_query_empty", format!("index {}: a default query on {} items returned nothing ({} trees)", im.index, im.items.len(), reader.n_trees()))),
-                                Err(e) => f.push(("C03", "query_error", format!("index {}: default query failed: {e}", im.index))),
+                                Err(e) => {
+                                    f.push(("C15", "default_query_failed", format!("index {}: a default query on {} items failed instead of returning results: {e}", im.index, im.items.len())));
+                                    f.push(("C03", "query_error", format!("index {}: default query failed: {e}", im.index)));
+                                }
                             }
                         }
                         f.extend(query::c03_lattice(txn, &reader, &im, &queries, qseed, deep, accurate, &mut qs));
@@ -1796,7 +1829,8 @@ impl<'p> Exec<'p> {
         let mut findings = findings;
         if forest_broken {
             // only what a search shows counts here; the structural audit of C04 / C15 needs a sound forest
-            findings.retain(|(p, _, _)| *p == "C02" || *p == "C03");
+            // (C15's "searches on a non-empty index return results" is such a finding)
+            findings.retain(|(p, k, _)| *p == "C02" || *p == "C03" || (*p == "C15" && k.starts_with("default_query")));
         }
         for (p, k, detail) in findings {
             let props = match p {
